@@ -288,7 +288,12 @@ vset_union(&seen, &bfs)
 //@ rewrite
 Ok(bfs.to_hashset())
 //@ with
-Ok(vto_hashset(bfs))
+let ghost ov = bfs@;
+    let out = vto_hashset(bfs);
+    proof { assert(reach_set_of(*graph, *node_name, ov, out@)); }
+    let res: Result<HashSet<T>, Error> = Ok(out);
+    proof { assert(res.unwrap()@ == out@); }
+    res
 //@ spec
     requires
         graph.wf_nodes(), graph.wf_rows(), graph.wf_index_members(),
@@ -297,6 +302,8 @@ Ok(vto_hashset(bfs))
         // [C10.node_cc.guard_and_contains_the_node]
         graph.specs.directed ==> is_err_kind(r, ErrorKind::WrongMethod),
         !graph.specs.directed ==> r.is_ok() && r.unwrap()@.contains(*node_name),
+        // [C10.node_cc.is_the_reachable_set_of_the_node]
+        !graph.specs.directed ==> exists|o: Seq<T>| #[trigger] reach_set_of(*graph, *node_name, o, r.unwrap()@),
 //@ end
 
 } // verus!
